@@ -266,11 +266,9 @@ def run(ck, m):
     from rules.c09 import rule_padding_after_cache
     rule_padding_after_cache(ck, m, "R7")
     # ---- shared with C09.R1/R4: a cached frame is served only if every mutable render input is unchanged
-    from tiv.report import Scoped
+    from tiv.report import borrow
     import rules.c09 as c09
-    sc9 = Scoped(ck, "R7", lambda c: c.endswith("RenderIterator._iterate"), rids={"R1", "R4"})
-    c09.run(sc9, m)
-    ck.expect(sc9.kept >= 6, f"expected the frame-cache obligations of C09.R1/R4 (got {sc9.kept})")
+    borrow(ck, c09, m, "R7", lambda c: c.endswith("RenderIterator._iterate"), rids={"R1", "R4"}, min_kept=6)
 
 
 def rule_padded_size_maintained(ck, m, rid):
